@@ -301,6 +301,16 @@ def step' (s : CState) (line : String) : CState × String :=
       let bs := fileDeserialize t
       (s, "ok " ++ (if bs.isEmpty then "_" else joinWith "|" (bs.map (fun b => encStr b.1 ++ "@" ++ encStr b.2))))
     | none => (s, "bad-op")
+  | ["reuse", s1, s2] =>
+    -- one file object written, edited in place into other content, written again: serialisation is a
+    -- function of the content alone, so the model simply serialises both contents
+    match decBlocks s1, decBlocks s2 with
+    | some a, some b =>
+      (s, match fileSerialize a, fileSerialize b with
+          | .ok ta, .ok tb => "ok " ++ encStr ta ++ " " ++ encStr tb
+          | .error e, _ => showErr e
+          | _, .error e => showErr e)
+    | _, _ => (s, "bad-op")
   | ["serfile", spec] =>
     match decBlocks spec with
     | some bs => (s, match fileSerialize bs with | .ok t => "ok " ++ encStr t | .error e => showErr e)
